@@ -75,11 +75,6 @@ def mode_for(rng, spec, t, consumer_kind, state):
     if d == "shared":
         return "ref"
     if d in ("copy", "cloneable", "free"):
-        if state.get("avoid_known") and d == "cloneable" and consumer_kind != "handler" and consumer_kind != "ctor:singleton" \
-                and not (state.get("single_stage") and not (ty["lc"] == "singleton" and consumer_kind.startswith("ctor:"))):
-            # known findings (ordering fixpoint stuck / E0505 when a clone-if-necessary value is moved in a stage that also
-            # lends it to the Next state): exercised by dedicated regression cases instead
-            return "ref"
         return rng.choice(["ref", "val"])
     if d == "moved":
         # exactly one consumer site overall (or only handlers/fallbacks), never borrowed
@@ -117,8 +112,7 @@ def gen_inclass(rng, knobs=None):
     kn = knobs or Knobs()
     spec = {"types": {}, "errors": [], "ctors": {}, "ehs": {}, "obs": {}, "mws": {}, "handlers": {}, "fallbacks": {},
             "bp": {"items": []}, "mode": "inclass"}
-    # "ownership" flavour: no wrapping middleware => one pipeline stage => the known E0505 (value moved in a stage that also
-    # lends it to the Next state) cannot arise, so clone-if-necessary values may be taken by value by anybody
+    # "ownership" flavour: no wrapping middleware => one pipeline stage: all moves and borrows of a value meet in one graph
     state = {"moved_owner": {}, "avoid_known": kn.avoid_known, "single_stage": kn.flavour == "ownership"}
     n_err = rint(rng, kn.n_errors)
     spec["errors"] = ["E%d" % i for i in range(n_err)]
